@@ -292,6 +292,21 @@ Theorem C01_config_seconds_to_ns : forall x,
 Proof. exact dur_of_seconds_spec. Qed.
 Print Assumptions C01_config_seconds_to_ns.
 
+(* "Settings that would void the bound are refused at start-up", for the configured drift: clockDrift accepts a
+   setting only if it is 0 / omitted (the documented unknown drift) or arrives as a POSITIVE number of ns per s; a
+   positive drift below 1 ns/s used to be truncated to 0 = clocks.UnknownDrift (Drift = MaxInt64, nothing clamped)
+   and is refused now, as are NaN and values beyond the int64 range *)
+Theorem C01_accepted_drift_positive : forall x d, clock_drift x = Some d ->
+  (feq (setting x) fzero = true /\ d = 0) \/ (fgt (setting x) fzero = true /\ 0 < d).
+Proof. exact accepted_drift_positive. Qed.
+Print Assumptions C01_accepted_drift_positive.
+
+(* clock_drift = 5e-10 (0.5 ns/s) and clock_drift = nan are refused *)
+Theorem C01_sub_ns_drift_refused :
+  clock_drift (Some (f_of_bits 4467902934002620053)) = None /\ clock_drift (Some (f_of_bits 9221120237041090560)) = None.
+Proof. exact sub_ns_drift_refused. Qed.
+Print Assumptions C01_sub_ns_drift_refused.
+
 (* nothing configured: the defaults 1.25 / 2.5 / 50 us / 500 ms / 1 s, accepted by Run; the drift is UnknownDrift *)
 Theorem C01_config_defaults_admissible :
   sync_config None None None None None = mkcfg default_ref default_peer 50000 500000000 1000000000 /\ inadmissible (sync_config None None None None None) = false /\ clock_drift None = Some 0.
